@@ -56,6 +56,9 @@ type Script struct {
 	Chunked bool `json:",omitempty"`
 	// RespWithErr: a failing unary handler returns a response value next to its error (return resp, err)
 	RespWithErr bool `json:",omitempty"`
+	// CtxAPI: streaming handlers set headers and trailers through the context-based API
+	// (grpc.SetHeader / grpc.SendHeader / grpc.SetTrailer with the stream's context) instead of the stream's methods
+	CtxAPI bool `json:",omitempty"`
 }
 
 // chunkedWriter drops Content-Length and flushes the header, so the reply goes out chunked.
@@ -149,6 +152,7 @@ type Obs struct {
 	HeaderErr    string      `json:",omitempty"`
 	HeaderAfter  int         `json:",omitempty"` // number of successful RecvMsg before Header() was called
 	Recvs        []RecvRes   `json:",omitempty"`
+	After        []string    `json:",omitempty"` // results of two further RecvMsg calls after the final one: nil | EOF | error
 	Final        StatusObs
 	TrailerMD    metadata.MD   `json:",omitempty"`
 	HdrOpts      []metadata.MD `json:",omitempty"`
@@ -205,19 +209,19 @@ func scriptService(s *Script, o *Obs, mu *sync.Mutex) *Service {
 			}
 			switch op.Op {
 			case "sethdr":
-				if stream != nil {
+				if stream != nil && !s.CtxAPI {
 					err = stream.SetHeader(opMD)
 				} else {
 					err = grpc.SetHeader(ctx, opMD)
 				}
 			case "sendhdr":
-				if stream != nil {
+				if stream != nil && !s.CtxAPI {
 					err = stream.SendHeader(opMD)
 				} else {
 					err = grpc.SendHeader(ctx, opMD)
 				}
 			case "settlr":
-				if stream != nil {
+				if stream != nil && !s.CtxAPI {
 					stream.SetTrailer(opMD)
 				} else {
 					err = grpc.SetTrailer(ctx, opMD)
@@ -444,8 +448,22 @@ func runScriptOn(s *Script, conn grpc.ClientConnInterface, o *Obs, mu *sync.Mute
 		if s.HeaderAt >= 0 && !o.HeaderCalled {
 			callHeader(got)
 		}
+		// a finished stream stays finished: further receives keep reporting its outcome
+		var after []string
+		for i := 0; i < 2 && final != nil; i++ {
+			err := cs.RecvMsg(new(pb.Message))
+			switch {
+			case err == nil:
+				after = append(after, "nil")
+			case err == io.EOF:
+				after = append(after, "EOF")
+			default:
+				after = append(after, "error")
+			}
+		}
 		tr := cs.Trailer()
 		mu.Lock()
+		o.After = after
 		o.TrailerMD = tr.Copy()
 		o.finalErr = final
 		o.Final = observeErr(final)
